@@ -856,3 +856,390 @@ Theorem C05_db_query_remove_isolated_node_preserves_stored_db :
                         frame (hp sp) (hp sp') (sd_foot root w) (sd_foot root w')).
 Proof. exact so_q_remove_isolated_node_stored. Qed.
 Print Assumptions C05_db_query_remove_isolated_node_preserves_stored_db.
+
+(* ---- THE LINK TO THE VALIDATED QUERY SEMANTICS Queries.exec (theories/StoredDbOpsLink.v) ----
+   The theorems above are stated against compositions of DbModel's functions; here the same programs are stated against
+   `Queries.exec` — the query semantics compared with the real database on generated histories (C09-C16 correspondence).
+   The query shapes the storage-program correspondence (`hx_core ops`) executes:
+     lq_insert_node l      = InsertNodes 1 (Single l) [] (Ids [])                        insert().nodes().values([l])
+     lq_insert_values id l = InsertValues (Ids [QId id]) (Single l)                      insert().values([l]).ids(id)
+     lq_insert_edge f t    = InsertEdges (Ids [QId f]) (Ids [QId t]) (Single []) false (Ids [])   insert().edges().from(f).to(t)
+     lq_remove id          = Remove (Ids [QId id])                                       remove().ids(id)
+   C05_db_exec_step_shapes: for these shapes `exec_mut_step rv d q` (every revision rv: no flag matters) IS the composition of
+   DbModel functions the so_q_* theorems mention, with result count and element ids; C05_db_exec_commits: a successful
+   mutating `exec` = the step followed by commit (the undo stack, which stored_db does not look at, is cleared).
+   C05_db_exec_*_preserves_stored_db: the program ends in a store that HOLDS `fst (exec rv d q)` and returns the id / count
+   `snd (exec rv d q)` reports (qres_ids: result count and the ids of the result's elements). *)
+From Agdb Require Import StoredDbOpsLink.
+
+Theorem C05_db_exec_commits :
+  forall rv d q d1 n els,
+    is_mutating q = true -> exec_mut_step rv d q = StOk d1 (n, els) ->
+    Queries.exec rv d q = (DbModel.commit d1, QOk n els).
+Proof. exact exec_of_step. Qed.
+Print Assumptions C05_db_exec_commits.
+
+Theorem C05_db_exec_step_shapes :
+  forall rv d,
+    (forall l, let id := fst (insert_node_db d) in
+               let d1 := mq_insert_key_values (reserve_kv (snd (insert_node_db d)) id) id l in
+               exec_mut_step rv d (lq_insert_node l) = StOk d1 (1%Z, [elem d1 id []])) /\
+    (forall id l, graph_index (gr d) id = true ->
+               exec_mut_step rv d (lq_insert_values id l) =
+               StOk (mq_insert_or_replace_key_values (reserve_kv d id) id l) (Queries.lenZ l, [])) /\
+    (forall f t e d1, graph_index (gr d) f = true -> graph_index (gr d) t = true ->
+               insert_edge_db d f t = DbModel.ROk (e, d1) ->
+               exec_mut_step rv d (lq_insert_edge f t) = StOk (reserve_kv d1 e) (1%Z, [elem (reserve_kv d1 e) e []])) /\
+    (forall e G', (e < 0)%Z -> is_edge (gr d) e = true -> Graph.remove_edge (gr d) e = Some G' ->
+               exec_mut_step rv d (lq_remove e) = StOk (remove_all_values (fst (remove_edge_db d e)) e) (1%Z, [])) /\
+    (forall n, (0 < n)%Z -> is_node (gr d) n = true -> imap_key (aliases d) n = None ->
+               snd (remove_node_db d n None) = None ->
+               exec_mut_step rv d (lq_remove n) = StOk (remove_all_values (fst (remove_node_db d n None)) n) (1%Z, [])).
+Proof. exact step_shapes. Qed.
+Print Assumptions C05_db_exec_step_shapes.
+
+(* insert().edges().from(f).to(t) as a storage program (so_q_insert_edge: insert_edge, reserve_key_value_capacity(e, 0) inside
+   one storage transaction): stored, computing DbModel's insert_edge_db followed by reserve_kv; an invalid endpoint: None,
+   the database as before *)
+Theorem C05_db_query_insert_edge_preserves_stored_db :
+  forall (fl : bool) root d w h f t sp,
+    stored_db_w (hp sp) root d w -> so_handles h w -> so_graph_ok (gr d) ->
+    (insert_edge (gr d) f t <> None -> so_edge_ok (gr d) f t) ->
+    (forall e d1, insert_edge_db d f t = DbModel.ROk (e, d1) -> so_index_ok (cg_as_u64 e)) ->
+    cwp fl (so_q_insert_edge h f t) sp
+        (fun r sp' =>
+           match insert_edge_db d f t with
+           | DbModel.ROk (e, d1) =>
+             exists h' w', r = CrOk (h', Some e) /\ stored_db_w (hp sp') root (reserve_kv d1 e) w' /\ so_handles h' w' /\
+                           sdepth sp' = sdepth sp /\ frame (hp sp) (hp sp') (sd_foot root w) (sd_foot root w')
+           | DbModel.RErr _ =>
+             r = CrOk (h, None) /\ stored_db_w (hp sp') root d w /\ sdepth sp' = sdepth sp /\
+             frame (hp sp) (hp sp') (sd_foot root w) (sd_foot root w)
+           end).
+Proof. exact so_q_insert_edge_stored. Qed.
+Print Assumptions C05_db_query_insert_edge_preserves_stored_db.
+
+Theorem C05_db_exec_insert_node_preserves_stored_db :
+  forall (fl : bool) rv root d w h l sp,
+    stored_db_w (hp sp) root d w -> so_handles h w -> so_graph_ok (gr d) ->
+    let id := fst (insert_node_db d) in
+    so_index_ok (cg_as_u64 id) -> so_kvs_ok (reserve_kv (snd (insert_node_db d)) id) id l ->
+    let q := InsertNodes 1 (Single l) [] (Ids []) in
+    cwp fl (so_q_insert_node h l) sp
+        (fun r sp' => exists h' w', r = CrOk (h', id) /\ qres_ids (snd (Queries.exec rv d q)) = Some (1%Z, [id]) /\
+                        stored_db_w (hp sp') root (fst (Queries.exec rv d q)) w' /\ so_handles h' w' /\
+                        sdepth sp' = sdepth sp /\ frame (hp sp) (hp sp') (sd_foot root w) (sd_foot root w')).
+Proof. exact so_exec_insert_node_stored. Qed.
+Print Assumptions C05_db_exec_insert_node_preserves_stored_db.
+
+Theorem C05_db_exec_insert_values_preserves_stored_db :
+  forall (fl : bool) rv root d w h id l sp,
+    stored_db_w (hp sp) root d w -> so_handles h w -> graph_index (gr d) id = true ->
+    so_index_ok (cg_as_u64 id) -> so_iors_ok (reserve_kv d id) id l ->
+    let q := InsertValues (Ids [QId id]) (Single l) in
+    cwp fl (so_q_insert_values h id l) sp
+        (fun r sp' => exists h' w', r = CrOk h' /\ qres_ids (snd (Queries.exec rv d q)) = Some (Queries.lenZ l, []) /\
+                        stored_db_w (hp sp') root (fst (Queries.exec rv d q)) w' /\ so_handles h' w' /\
+                        sdepth sp' = sdepth sp /\ frame (hp sp) (hp sp') (sd_foot root w) (sd_foot root w')).
+Proof. exact so_exec_insert_values_stored. Qed.
+Print Assumptions C05_db_exec_insert_values_preserves_stored_db.
+
+Theorem C05_db_exec_insert_edge_preserves_stored_db :
+  forall (fl : bool) rv root d w h f t sp,
+    stored_db_w (hp sp) root d w -> so_handles h w -> so_graph_ok (gr d) ->
+    is_node (gr d) f = true -> is_node (gr d) t = true -> (0 < f)%Z -> (0 < t)%Z ->
+    so_edge_ok (gr d) f t ->
+    let e := (- fst (get_free_index (gr d)))%Z in
+    so_index_ok (cg_as_u64 e) ->
+    let q := InsertEdges (Ids [QId f]) (Ids [QId t]) (Single []) false (Ids []) in
+    cwp fl (so_q_insert_edge h f t) sp
+        (fun r sp' => exists h' w', r = CrOk (h', Some e) /\ qres_ids (snd (Queries.exec rv d q)) = Some (1%Z, [e]) /\
+                        stored_db_w (hp sp') root (fst (Queries.exec rv d q)) w' /\ so_handles h' w' /\
+                        sdepth sp' = sdepth sp /\ frame (hp sp) (hp sp') (sd_foot root w) (sd_foot root w')).
+Proof. exact so_exec_insert_edge_stored. Qed.
+Print Assumptions C05_db_exec_insert_edge_preserves_stored_db.
+
+(* the REJECTED edge insertion: an endpoint (a positive id: a slot beyond the capacity, a removed slot, the slot of an edge) that
+   is not a node, on a database at rest (empty undo stack): exec fails (no ids) and returns d itself; the program returns
+   None and the store holds d with the SAME witness *)
+Theorem C05_db_exec_insert_edge_rejected_preserves_stored_db :
+  forall (fl : bool) rv root d w h f t sp,
+    stored_db_w (hp sp) root d w -> so_handles h w -> so_graph_ok (gr d) ->
+    (0 < f)%Z -> (0 < t)%Z -> is_node (gr d) f && is_node (gr d) t = false -> undo d = [] ->
+    let q := InsertEdges (Ids [QId f]) (Ids [QId t]) (Single []) false (Ids []) in
+    cwp fl (so_q_insert_edge h f t) sp
+        (fun r sp' => r = CrOk (h, None) /\ qres_ids (snd (Queries.exec rv d q)) = None /\
+                      fst (Queries.exec rv d q) = d /\
+                      stored_db_w (hp sp') root d w /\ sdepth sp' = sdepth sp /\
+                      frame (hp sp) (hp sp') (sd_foot root w) (sd_foot root w)).
+Proof. exact so_exec_insert_edge_rejected_stored. Qed.
+Print Assumptions C05_db_exec_insert_edge_rejected_preserves_stored_db.
+
+Theorem C05_db_exec_remove_edge_preserves_stored_db :
+  forall (fl : bool) rv root d w h e sp,
+    stored_db_w (hp sp) root d w -> so_handles h w -> (e < 0)%Z -> is_edge (gr d) e = true ->
+    so_graph_ok (gr d) -> so_remove_edge_ok (gr d) e ->
+    so_slot_valid (sw_vi w) (zabs_nat e) ->
+    (forall x, In x (kvs_get (vals d) e) -> idx_find (indexes d) (fst x) = None) ->
+    let q := Remove (Ids [QId e]) in
+    cwp fl (so_q_remove h e) sp
+        (fun r sp' => exists h' w', r = CrOk h' /\ qres_ids (snd (Queries.exec rv d q)) = Some (1%Z, []) /\
+                        stored_db_w (hp sp') root (fst (Queries.exec rv d q)) w' /\ so_handles h' w' /\
+                        sdepth sp' = sdepth sp /\ frame (hp sp) (hp sp') (sd_foot root w) (sd_foot root w')).
+Proof. exact so_exec_remove_edge_stored. Qed.
+Print Assumptions C05_db_exec_remove_edge_preserves_stored_db.
+
+Theorem C05_db_exec_remove_isolated_node_preserves_stored_db :
+  forall (fl : bool) rv root d w h n sp,
+    stored_db_w (hp sp) root d w -> so_handles h w -> (0 < n)%Z ->
+    so_graph_ok (gr d) -> is_node (gr d) n = true -> imap_key (aliases d) n = None ->
+    from (gr d) n = 0%Z -> to (gr d) n = 0%Z -> (1 <= tmeta (gr d) 0)%Z ->
+    so_slot_valid (sw_vi w) (zabs_nat n) ->
+    (forall x, In x (kvs_get (vals d) n) -> idx_find (indexes d) (fst x) = None) ->
+    let q := Remove (Ids [QId n]) in
+    cwp fl (so_q_remove h n) sp
+        (fun r sp' => exists h' w', r = CrOk h' /\ qres_ids (snd (Queries.exec rv d q)) = Some (1%Z, []) /\
+                        stored_db_w (hp sp') root (fst (Queries.exec rv d q)) w' /\ so_handles h' w' /\
+                        sdepth sp' = sdepth sp /\ frame (hp sp) (hp sp') (sd_foot root w) (sd_foot root w')).
+Proof. exact so_exec_remove_isolated_node_stored. Qed.
+Print Assumptions C05_db_exec_remove_isolated_node_preserves_stored_db.
+
+(* ---- the graph side conditions FROM C08's well-formedness (theories/StoredDbOpsLinkWf.v) ----
+   so_edge_ok (the two degree counters insert_edge increments stay i64 values) and so_remove_edge_ok (the edge, its source /
+   target and every slot the two unlink walks visit are inside the arrays, the walks end within `capacity` rounds, the
+   decremented counters stay i64 values) hold of every graph satisfying C08's wf (what every history of graph.rs operations
+   from graph_new satisfies: C08_history_refines; a component of Inv) whose capacity is below 2^60; so do the index bounds of
+   the ids insert_node / insert_edge hand out and of every existing id.  With C05_db_graph_side_condition_from_wf nothing
+   about the graph is assumed any more beyond wf and the capacity bound. *)
+From Agdb Require Import StoredDbOpsLinkWf.
+
+Theorem C05_db_edge_side_conditions_from_wf :
+  forall g, GraphSim.wf g -> (Graph.capacity g < 1152921504606846976)%Z ->
+    (forall f t, (0 < f)%Z -> (0 < t)%Z -> is_node g f = true -> is_node g t = true -> so_edge_ok g f t) /\
+    (forall e, (e < 0)%Z -> so_remove_edge_ok g e) /\
+    so_index_ok (cg_as_u64 (fst (insert_node g))) /\ so_index_ok (cg_as_u64 (- fst (get_free_index g))) /\
+    (forall id, graph_index g id = true -> so_index_ok (cg_as_u64 id)).
+Proof. exact wf_edge_side_conditions. Qed.
+Print Assumptions C05_db_edge_side_conditions_from_wf.
+
+(* ---- COVERED QUERIES from the invariant, and their histories (theories/StoredDbOpsLinkHist.v) ----
+   so_cq = the covered query shapes: CqInsertNode l (insert().nodes().values([l])), CqInsertValues id l
+   (insert().values([l]).ids(id)), CqInsertEdge f t (insert().edges().from(f).to(t)), CqRemove id (remove().ids(id));
+   cq_query = the query of Queries.v, cq_run = the storage program (returning the id of the element it created).
+   so_covered d c (every clause a decidable statement about d and c alone):
+     capacity (gr d) < 2^60;
+     CqInsertNode l      so_kvs_ok: at each pair the key is not indexed (idx_find = None), the pair is valid (el_valid law_dbkv:
+                         i64 range, valid UTF-8, lengths < 2^60), the element's vector stays below 2^64 bytes
+     CqInsertValues id l graph_index (gr d) id = true; so_iors_ok: the same, and a replaced pair's key is not indexed either
+     CqInsertEdge f t    f, t > 0, both existing nodes — or (the rejected insertion the correspondence also runs) one of them
+                         not a node and the undo stack empty: the query fails, the program writes nothing and returns None
+     CqRemove id         id an edge, or a node with from = to = 0 (no edges) and no alias; none of its keys indexed; AT LEAST
+                         ONE PROPERTY (then the file provably holds its property vector: so_slot_valid; for an element without
+                         properties that fact lives in the witness only and the theorems above do not expose it)
+   C05_db_covered_query_preserves_stored_db: wf (gr d) and so_covered d c suffice — the program ends in a store holding
+   `fst (exec rv d q)` and returns the id `snd (exec rv d q)` reports (cq_out).
+   C05_db_covered_histories_preserve_stored_db_partial: for EVERY list l of queries each covered in the database it runs on
+   (so_covered_all: so_covered, query_ok = no key twice in an insert list — the side condition of C09 / C13 —, capacity
+   < 2^60 afterwards), from a stored database satisfying HInv (Inv, db_ok, empty undo stack: what every history from
+   db_new satisfies, C13_history_invariant) the programs in sequence end in a store holding the fold of `exec rv_fixed`
+   (cq_model; cq_model_fold), return the ids exec reports, and HInv holds again.
+   _partial — NOT COVERED: aliases (insert nodes / values with aliases, insert / remove aliases, removal of an aliased node),
+   indexes (insert / remove index, any indexed key), cascading removals (a node with edges), removal of an element without
+   properties, multi-element queries (count > 1, several ids, search-selected ids, Multi values, each), failing queries
+   (rollback), transactions of several queries, remove values. *)
+From Agdb Require Import StoredDbOpsLinkHist StoredDbOpsLinkExample.
+From Agdb Require HistoryAtomicProofs QueryInvProofs.
+
+Theorem C05_db_covered_query_preserves_stored_db :
+  forall (fl : bool) rv root d w h c sp,
+    stored_db_w (hp sp) root d w -> so_handles h w -> GraphSim.wf (gr d) -> so_covered d c ->
+    cwp fl (cq_run h c) sp
+        (fun r sp' => exists h' w', r = CrOk (h', cq_out (snd (Queries.exec rv d (cq_query c)))) /\
+                        stored_db_w (hp sp') root (fst (Queries.exec rv d (cq_query c))) w' /\ so_handles h' w' /\
+                        sdepth sp' = sdepth sp /\ frame (hp sp) (hp sp') (sd_foot root w) (sd_foot root w')).
+Proof. exact so_cq_stored. Qed.
+Print Assumptions C05_db_covered_query_preserves_stored_db.
+
+Theorem C05_db_covered_histories_preserve_stored_db_partial :
+  forall (fl : bool) root l d w h sp,
+    stored_db_w (hp sp) root d w -> so_handles h w -> HistoryAtomicProofs.HInv d -> so_covered_all rv_fixed d l ->
+    cwp fl (cq_runs h l) sp
+        (fun r sp' => exists h' w', r = CrOk (h', snd (cq_model rv_fixed d l)) /\
+                        stored_db_w (hp sp') root (fst (cq_model rv_fixed d l)) w' /\ so_handles h' w' /\
+                        HistoryAtomicProofs.HInv (fst (cq_model rv_fixed d l)) /\
+                        sdepth sp' = sdepth sp /\ frame (hp sp) (hp sp') (sd_foot root w) (sd_foot root w')).
+Proof. exact so_cqs_stored. Qed.
+Print Assumptions C05_db_covered_histories_preserve_stored_db_partial.
+
+Theorem C05_db_covered_model_is_exec_fold :
+  forall rv l d, fst (cq_model rv d l) = fold_left (fun a c => fst (Queries.exec rv a (cq_query c))) l d.
+Proof. exact cq_model_fold. Qed.
+Print Assumptions C05_db_covered_model_is_exec_fold.
+
+(* non-vacuity on the example database of C05_db_sample (nodes 1, 2, edge -3 from 1 to 2 with one property, an index on a
+   key of node 1): its graph is well-formed, the removal of the edge -3 and the insertion of an edge from 2 to 1 are covered,
+   so is the two-query history, and exec reports the new edge -4 *)
+Example C05_db_sample_covered :
+  GraphSim.wf (gr sx_db) /\ so_covered sx_db (CqRemove (-3)) /\ so_covered sx_db (CqInsertEdge 2 1) /\
+  so_covered_all rv_fixed sx_db [CqInsertEdge 2 1; CqRemove (-3)] /\
+  snd (cq_model rv_fixed sx_db [CqInsertEdge 2 1; CqRemove (-3)]) = [Some (-4)%Z; None].
+Proof. exact sx_link_sample. Qed.
+Print Assumptions C05_db_sample_covered.
+
+(* the hypotheses of the history theorem hold TOGETHER of the example: sx_db is what four public queries build from db_new
+   (insert nodes with an alias and two values; insert nodes; insert edges with a value; insert index — run_items), hence
+   HInv sx_db (C13_history_invariant); it lies in the record map sx_g (C05_db_sample) with the witness sx_wit; and the history
+   [insert edge 2 -> 1; remove edge -3] is covered *)
+Example C05_db_sample_covered_history :
+  HistoryAtomicProofs.run_items rv_fixed db_new sx_history = sx_db /\
+  HistoryAtomicProofs.HInv sx_db /\ stored_db_w sx_g 1 sx_db sx_wit /\
+  so_covered_all rv_fixed sx_db [CqInsertEdge 2 1; CqRemove (-3)].
+Proof. exact (conj sx_reached sx_link_sample_hinv). Qed.
+Print Assumptions C05_db_sample_covered_history.
+
+(* a rejected insertion is covered too: 3 is the slot of the edge -3, not a node; exec fails and returns sx_db *)
+Example C05_db_sample_covered_rejected :
+  so_covered sx_db (CqInsertEdge 1 3) /\
+  Queries.exec rv_fixed sx_db (cq_query (CqInsertEdge 1 3)) = (sx_db, QErr ENotFound).
+Proof. exact sx_covered_rejected. Qed.
+Print Assumptions C05_db_sample_covered_rejected.
+
+(* so_covered is decidable: the boolean so_coveredb computes it (theories/StoredDbOpsLinkDec.v) *)
+From Agdb Require Import StoredDbOpsLinkDec.
+Theorem C05_db_covered_decidable :
+  forall d c, so_coveredb d c = true <-> so_covered d c.
+Proof. exact so_coveredb_iff. Qed.
+Print Assumptions C05_db_covered_decidable.
+
+(* the covered histories on the MODEL OF storage.rs (C04; file-like and memory-like back-ends; theories/
+   StoredDbOpsLinkStorage.v): from any storage state refining a record map that holds d, so_open followed by the programs
+   of the history either dies by a panic of the storage (a request beyond 2^64 bytes) or returns exec's ids in a storage
+   state refining a record map that holds the fold of exec rv_fixed.  _partial as above. *)
+From Agdb Require Import StoredDbOpsLinkStorage.
+Theorem C05_db_covered_histories_on_storage_partial :
+  forall (ops : store_ops cdata) (fl : bool), StorageProofs.kind ops fl ->
+  forall s sp root d l, Rel s sp -> stored_db (hp sp) root d -> HistoryAtomicProofs.HInv d -> so_covered_all rv_fixed d l ->
+    let r := cp_run (st_step cdata ops) (h <~ so_open root ;; cq_runs h l) s in
+    snd r = CrDead \/
+    exists sp' h' w w', Rel (fst r) sp' /\ snd r = CrOk (h', snd (cq_model rv_fixed d l)) /\
+                        stored_db_w (hp sp) root d w /\ stored_db_w (hp sp') root (fst (cq_model rv_fixed d l)) w' /\
+                        so_handles h' w' /\ HistoryAtomicProofs.HInv (fst (cq_model rv_fixed d l)) /\ sdepth sp' = sdepth sp /\
+                        frame (hp sp) (hp sp') (sd_foot root w) (sd_foot root w').
+Proof. exact so_covered_on_storage. Qed.
+Print Assumptions C05_db_covered_histories_on_storage_partial.
+
+(* C05 END TO END for covered histories (theories/StoredDbOpsLinkFinal.v): on the model of storage.rs, from a state (no
+   transaction open) refining a record map that holds d (HInv d), run so_open and the programs of a covered history l, then
+   a maintenance operation o (optimize_storage / drop + open / backup + open): unless the storage panics, the result is a
+   state holding dN = the fold of exec rv_fixed over l, and the database LOADED from it (load_db: what DbImpl::open
+   rebuilds) is dN up to sd_eqv and answers every order-independent read-only query (sd_query_ok) EXACTLY as dN does —
+   "after any history of mutating queries, reopening / optimizing / backing up yields a database on which the queries
+   return the same", for the covered histories.  _partial: as C05_db_covered_histories_preserve_stored_db_partial. *)
+From Agdb Require Import StoredDbOpsLinkFinal.
+Theorem C05_db_covered_histories_then_reopen_partial :
+  forall (ops : store_ops cdata) (fl : bool), StorageProofs.kind ops fl ->
+  forall rv s sp root d l o,
+    Rel s sp -> sdepth sp = 0 -> stored_db (hp sp) root d -> HistoryAtomicProofs.HInv d -> so_covered_all rv_fixed d l ->
+    cv_is_maint o = true ->
+    let r := cp_run (st_step cdata ops) (h <~ so_open root ;; cq_runs h l) s in
+    let dN := fst (cq_model rv_fixed d l) in
+    snd r = CrDead \/
+    snd (st_step cdata ops (fst r) o) = ObPanic \/
+    exists h' sp2 d1,
+      snd r = CrOk (h', snd (cq_model rv_fixed d l)) /\
+      Rel (fst (st_step cdata ops (fst r) o)) sp2 /\ sdepth sp2 = 0 /\ stored_db (hp sp2) root dN /\
+      load_db (sm sp2) root = Some d1 /\ sd_eqv dN d1 /\
+      forall q, sd_query_ok q -> snd (Queries.exec rv d1 q) = snd (Queries.exec rv dN q).
+Proof. exact so_covered_then_maintenance. Qed.
+Print Assumptions C05_db_covered_histories_then_reopen_partial.
+
+(* ---- COVERED HISTORIES WITHOUT THE PROPERTY RESTRICTION ON REMOVALS (theories/StoredDbOpsLinkKv.v, ..Slots.v, ..Hist2.v,
+        ..Final2.v) ----
+   The removal of an element WITHOUT properties needs to know that the element's property vector is allocated in the file
+   (so_slot_valid: for a LAST slot holding 0 the code keeps the slot while DbModel pops the entry).  That fact is not a
+   function of the database d — it is an invariant of the pair (d, witness):
+     slots_ok d w   every existing element's slot of the DbKeyValues slot vector is <> 0
+   (true of every file the real database writes: every public insertion reserves capacity for the element it creates).
+   The DbKeyValues programs and the so_q programs are proved again with the slot vector visible (allocated slots stay
+   allocated; insert_value / reserve_capacity / insert_or_replace leave the slot they work on allocated; remove frees the
+   removed element's slot only), the set of elements changes by exactly the created / removed element (from C08's
+   simulation), hence every covered query PRESERVES slots_ok:
+   C05_db_covered2_query_preserves_stored_db: wf (gr d) + slots_ok d w + so_covered2 d c (as so_covered; a removal needs no
+     property) => the program ends in a store holding fst (exec rv d q), with exec's id, and slots_ok again.
+   C05_db_covered2_histories_preserve_stored_db_partial: every history of so_covered2 queries from a stored database with HInv
+     and slots_ok: stored for the fold of exec rv_fixed, exec's ids, HInv and slots_ok again.
+   C05_db_covered2_histories_then_reopen_partial: the same END TO END on the model of storage.rs (stored_db_slots g root d =
+     exists w, stored_db_w g root d w /\ slots_ok d w): programs of the history, optimize_storage / drop + open / backup +
+     open, load_db: the loaded database is the fold of exec up to sd_eqv and answers every sd_query_ok query as it does.
+   _partial — NOT COVERED: aliases, indexes, cascading removals (a node with edges), multi-element queries, failing queries
+   other than the rejected edge insertion, multi-query transactions, remove values / remove aliases / remove index. *)
+From Agdb Require Import StoredDbOpsLinkKv StoredDbOpsLinkSlots StoredDbOpsLinkHist2 StoredDbOpsLinkFinal2 StoredDbOpsLinkDec2
+  StoredDbOpsLinkExample2.
+
+Theorem C05_db_covered2_query_preserves_stored_db :
+  forall (fl : bool) rv root d w h c sp,
+    stored_db_w (hp sp) root d w -> so_handles h w -> GraphSim.wf (gr d) -> slots_ok d w -> so_covered2 d c ->
+    cwp fl (cq_run h c) sp
+        (fun r sp' => exists h' w', r = CrOk (h', cq_out (snd (Queries.exec rv d (cq_query c)))) /\
+                        stored_db_w (hp sp') root (fst (Queries.exec rv d (cq_query c))) w' /\ so_handles h' w' /\
+                        slots_ok (fst (Queries.exec rv d (cq_query c))) w' /\
+                        sdepth sp' = sdepth sp /\ frame (hp sp) (hp sp') (sd_foot root w) (sd_foot root w')).
+Proof. exact so_cq_stored2. Qed.
+Print Assumptions C05_db_covered2_query_preserves_stored_db.
+
+Theorem C05_db_covered2_histories_preserve_stored_db_partial :
+  forall (fl : bool) root l d w h sp,
+    stored_db_w (hp sp) root d w -> so_handles h w -> HistoryAtomicProofs.HInv d -> slots_ok d w ->
+    so_covered_all2 rv_fixed d l ->
+    cwp fl (cq_runs h l) sp
+        (fun r sp' => exists h' w', r = CrOk (h', snd (cq_model rv_fixed d l)) /\
+                        stored_db_w (hp sp') root (fst (cq_model rv_fixed d l)) w' /\ so_handles h' w' /\
+                        HistoryAtomicProofs.HInv (fst (cq_model rv_fixed d l)) /\ slots_ok (fst (cq_model rv_fixed d l)) w' /\
+                        sdepth sp' = sdepth sp /\ frame (hp sp) (hp sp') (sd_foot root w) (sd_foot root w')).
+Proof. exact so_cqs_stored2. Qed.
+Print Assumptions C05_db_covered2_histories_preserve_stored_db_partial.
+
+Theorem C05_db_covered2_histories_on_storage_partial :
+  forall (ops : store_ops cdata) (fl : bool), StorageProofs.kind ops fl ->
+  forall s sp root d l, Rel s sp -> stored_db_slots (hp sp) root d -> HistoryAtomicProofs.HInv d -> so_covered_all2 rv_fixed d l ->
+    let r := cp_run (st_step cdata ops) (h <~ so_open root ;; cq_runs h l) s in
+    snd r = CrDead \/
+    exists sp' h', Rel (fst r) sp' /\ snd r = CrOk (h', snd (cq_model rv_fixed d l)) /\
+                   stored_db_slots (hp sp') root (fst (cq_model rv_fixed d l)) /\
+                   HistoryAtomicProofs.HInv (fst (cq_model rv_fixed d l)) /\ sdepth sp' = sdepth sp.
+Proof. exact so_covered_on_storage2. Qed.
+Print Assumptions C05_db_covered2_histories_on_storage_partial.
+
+Theorem C05_db_covered2_histories_then_reopen_partial :
+  forall (ops : store_ops cdata) (fl : bool), StorageProofs.kind ops fl ->
+  forall rv s sp root d l o,
+    Rel s sp -> sdepth sp = 0%N -> stored_db_slots (hp sp) root d -> HistoryAtomicProofs.HInv d -> so_covered_all2 rv_fixed d l ->
+    cv_is_maint o = true ->
+    let r := cp_run (st_step cdata ops) (h <~ so_open root ;; cq_runs h l) s in
+    let dN := fst (cq_model rv_fixed d l) in
+    snd r = CrDead \/
+    snd (st_step cdata ops (fst r) o) = ObPanic \/
+    exists h' sp2 d1,
+      snd r = CrOk (h', snd (cq_model rv_fixed d l)) /\
+      Rel (fst (st_step cdata ops (fst r) o)) sp2 /\ sdepth sp2 = 0%N /\ stored_db (hp sp2) root dN /\
+      load_db (sm sp2) root = Some d1 /\ sd_eqv dN d1 /\
+      forall q, sd_query_ok q -> snd (Queries.exec rv d1 q) = snd (Queries.exec rv dN q).
+Proof. exact so_covered_then_maintenance2. Qed.
+Print Assumptions C05_db_covered2_histories_then_reopen_partial.
+
+Theorem C05_db_covered2_decidable :
+  forall d c, (so_coveredb2 d c = true <-> so_covered2 d c) /\ (so_covered d c -> so_covered2 d c).
+Proof. exact (fun d c => conj (so_coveredb2_iff d c) (so_covered_covered2 d c)). Qed.
+Print Assumptions C05_db_covered2_decidable.
+
+(* non-vacuity.  In the HAND-BUILT example file node 2 has no property vector (slot 0): slots_ok fails there — no file written
+   by the real database looks like that.  Running `insert values [] ids 2` on it (so_open; so_q_insert_values on the model
+   of storage.rs, every answer replayed on the abstract record map) allocates the vector and changes nothing else: the
+   record map reached HOLDS sx_db with slots_ok; sx_db satisfies HInv; and the history [insert edge 2 -> 1; remove that edge
+   (-4, which has no property)] is covered *)
+Example C05_db_sample_covered2_history :
+  exists sp w, stored_db_w (hp sp) 1 sx_db w /\ slots_ok sx_db w /\ HistoryAtomicProofs.HInv sx_db /\
+               so_covered_all2 rv_fixed sx_db [CqInsertEdge 2 1; CqRemove (-4)] /\
+               kvs_get (vals (fst (Queries.exec rv_fixed sx_db (cq_query (CqInsertEdge 2 1))))) (-4) = [].
+Proof. exact sz_sample. Qed.
+Print Assumptions C05_db_sample_covered2_history.
